@@ -359,7 +359,7 @@ func c10Little(s *sdb.Schema) *c10View {
 }
 
 func runC10(r *ev.Run) {
-	r.Rule = "grammar-directed enumeration of CREATE TABLE statements (1-3 columns; types {none, INTEGER, integer, INT, TEXT, INTEGER(5)}; every ordered list of <=2 (3 thorough) column constraints from 15; 0-2 table constraints from 20 incl. duplicate/overlapping/re-ordered/collated/DESC ones and CONSTRAINT names; WITHOUT ROWID; 7 identifier spellings incl. the string literal SQLite accepts where a name is expected; identifiers, type names and keywords that differ only in non-ASCII case - SQLite folds ASCII only) and CREATE INDEX statements (UNIQUE, column permutations, per-column COLLATE/DESC, partial, expression columns, one or two indexes) on 5 base tables; only statements real SQLite accepts are judged; oracle: PRAGMA table_xinfo/index_list/index_xinfo + a behavioural rowid-alias probe + reading the probe row back. A definition sqlittle rejects is fine; an explicit index it leaves out is fine; every index it reports must match SQLite's index of that name; every automatic index must be reported. non-trivial = statements with at least one index or a primary key"
+	r.Rule = "grammar-directed enumeration of CREATE TABLE statements (1-3 columns; types {none, INTEGER, integer, INT, TEXT, INTEGER(5)}; every ordered list of <=2 (3 thorough) column constraints from 15; 0-2 table constraints from 20 incl. duplicate/overlapping/re-ordered/collated/DESC ones and CONSTRAINT names; WITHOUT ROWID; 7 identifier spellings incl. the string literal SQLite accepts where a name is expected; identifiers, type names and keywords that differ only in non-ASCII case - SQLite folds ASCII only) and CREATE INDEX statements (UNIQUE, column permutations, per-column COLLATE/DESC, partial, expression columns, one or two indexes) on 5 base tables; the index families and a quarter of the DESC-bearing table definitions once more in a legacy-format database (schema format 3: DESC is ignored); only statements real SQLite accepts are judged; oracle: PRAGMA table_xinfo/index_list/index_xinfo + a behavioural rowid-alias probe + reading the probe row back. A definition sqlittle rejects is fine; an explicit index it leaves out is fine; every index it reports must match SQLite's index of that name; every automatic index must be reported. non-trivial = statements with at least one index or a primary key"
 	cases := c10Generate(r.Thorough())
 	r.Set("generated_statements", len(cases))
 	// one SQLite connection per worker, reused (the table is dropped between cases)
@@ -376,12 +376,26 @@ func runC10(r *ev.Run) {
 			}
 			defer l.Close()
 			l.MustExec("PRAGMA page_size=512; CREATE TABLE o (x PRIMARY KEY);")
+			// a second database in SQLite's legacy file format (schema format 3 after the ADD COLUMN): DESC in
+			// index and primary key definitions is ignored there, and SQLite's PRAGMAs say so
+			ll, err := lite.OpenMem()
+			if err != nil {
+				r.Harness("lite: %v", err)
+				return
+			}
+			defer ll.Close()
+			ll.LegacyFormat(true)
+			ll.MustExec("PRAGMA page_size=512; CREATE TABLE o (x PRIMARY KEY); ALTER TABLE o ADD COLUMN y DEFAULT 1;")
 			for {
 				i := int(atomic.AddInt64(&next, 1))
 				if i >= len(cases) {
 					return
 				}
 				c10One(r, l, &cases[i])
+				if f := cases[i].family; f == "one-index" || f == "two-indexes" || (f == "two-columns" && strings.Contains(cases[i].stmts[0], "DESC") && i%4 == 0) {
+					lc := c10Case{family: f + " (legacy file format)", stmts: cases[i].stmts}
+					c10One(r, ll, &lc)
+				}
 			}
 		}()
 	}
